@@ -103,6 +103,8 @@ fn timeout_handler(data: TimerData) {
     };
 
     set_co_para(&mut co, io::Error::new(io::ErrorKind::TimedOut, "timeout"));
+    #[cfg(may_verif)]
+    crate::verif::label("io.timeout_handler.resumed", 0);
 
     // resume the coroutine with timeout error
     run_coroutine(co);
